@@ -243,6 +243,33 @@ fn c02_oracle(m: &MLib, ctx: &mut Ctx) -> Result<(), String> {
             return Err(format!("a destination that accepts {} bytes per call received {} bytes, memory received {}: the streams differ", dest.1, dest.0.len(), bytes.len()));
         }
     }
+    // every 8th library (by content) is also written to a destination that stops accepting bytes part of
+    // the way (a full disk): either write() reports the failure, or what arrived is the whole stream -
+    // `Ok` over a destination that holds a stream without its end-of-library record is neither
+    if hash_of(m) % 8 == 3 {
+        ctx.label("also written to a destination that fails part of the way");
+        struct Full(Vec<u8>, usize);
+        impl std::io::Write for Full {
+            fn write(&mut self, b: &[u8]) -> std::io::Result<usize> {
+                let room = self.1.saturating_sub(self.0.len());
+                if room == 0 && !b.is_empty() {
+                    return Err(std::io::Error::new(std::io::ErrorKind::Other, "no space left on device"));
+                }
+                let n = b.len().min(room);
+                self.0.extend_from_slice(&b[..n]);
+                Ok(n)
+            }
+            fn flush(&mut self) -> std::io::Result<()> {
+                Ok(())
+            }
+        }
+        let limit = (hash_of(&(m, 1u8)) % bytes.len().max(1) as u64) as usize;
+        let mut dest = Full(Vec::new(), limit);
+        let r = lib.write(&mut dest);
+        if r.is_ok() && dest.0 != bytes {
+            return Err(format!("write() returned Ok although the destination refused everything after byte {}: it holds {} of the {} bytes of the stream (no end-of-library record)", limit, dest.0.len(), bytes.len()));
+        }
+    }
     // every 16th library (by content) also goes through save() onto a path that already holds an
     // older, longer file: the file must hold exactly the stream, nothing left over
     if hash_of(m) % 16 == 0 {
